@@ -69,19 +69,39 @@ def proj_ev(index, removed, added):
     return {"slice": 0, "a": -999, "b": 0, "c": 0, "removed": rem, "added": add}
 
 
+class IdxObj:
+    """an integer-like object: only __index__ (no comparison, no arithmetic)"""
+    __slots__ = ("v",)
+
+    def __init__(self, v):
+        self.v = v
+
+    def __index__(self):
+        return self.v
+
+
+_IDX_REP = [0]       # 0: plain ints, 1: integer-like objects with __index__ only
+
+
 def _opt(v):
-    return None if v == NONE else v
+    if v == NONE:
+        return None
+    return IdxObj(v) if _IDX_REP[0] == 1 else v
+
+
+def _ix(v):
+    return IdxObj(v) if _IDX_REP[0] == 1 else v
 
 
 def perform(obj, op, a, xs, vm, is_trait_list):
     """Perform op on obj (TraitList or builtin list). Returns (ret, newobj_or_None)."""
     cx = [conc(vm, x) for x in xs]
     if op == "setitem":
-        obj[a[0]] = cx[0]
+        obj[_ix(a[0])] = cx[0]
     elif op == "setslice":
         obj[slice(_opt(a[0]), _opt(a[1]), _opt(a[2]))] = cx
     elif op == "delitem":
-        del obj[a[0]]
+        del obj[_ix(a[0])]
     elif op == "delslice":
         del obj[slice(_opt(a[0]), _opt(a[1]), _opt(a[2]))]
     elif op == "append":
@@ -91,11 +111,11 @@ def perform(obj, op, a, xs, vm, is_trait_list):
     elif op == "iadd":
         obj += cx
     elif op == "imul":
-        obj *= a[0]
+        obj *= _ix(a[0])
     elif op == "insert":
-        obj.insert(a[0], cx[0])
+        obj.insert(_ix(a[0]), cx[0])
     elif op == "pop":
-        return (obj.pop() if a[0] == NONE else obj.pop(a[0])), None
+        return (obj.pop() if a[0] == NONE else obj.pop(_ix(a[0]))), None
     elif op == "remove":
         obj.remove(cx[0])
     elif op == "reverse":
@@ -125,8 +145,21 @@ def _coerce_validator(x):
     raise TraitError("invalid item %r" % (x,))
 
 
-def execute(pre, op, a, xs, vm):
+INDEXED_OPS = ("setitem", "setslice", "delitem", "delslice", "imul", "insert", "pop")
+
+
+def execute(pre, op, a, xs, vm, idxrep=0):
     """Run one operation on a real TraitList holding `pre`. Returns the record for the judge."""
+    _IDX_REP[0] = idxrep
+    try:
+        r = _execute(pre, op, a, xs, vm)
+    finally:
+        _IDX_REP[0] = 0
+    r["idxrep"] = idxrep
+    return r
+
+
+def _execute(pre, op, a, xs, vm):
     TraitList, TraitError = _mods()
     events = []
 
@@ -186,7 +219,9 @@ def case_fn(st, rep):
     last = st["last"]
     if last["op"] == "init":
         return None
-    r = execute(list(last["pre"]), last["op"], list(last["a"]), list(last["xs"]), last["vm"])
+    if rep == 1 and last["op"] not in INDEXED_OPS:
+        return None
+    r = execute(list(last["pre"]), last["op"], list(last["a"]), list(last["xs"]), last["vm"], idxrep=rep)
     fail = None
     exp_post = list(last["post"])
     why = []
@@ -252,7 +287,7 @@ def history_lines(seed, ntraces, steps, maxlen=9):
                 a[0] = rnd.randint(0, 2)
             if len(cur) > maxlen and op in ("extend", "iadd", "imul", "append", "insert"):
                 op, a, xs = "delslice", [NONE, NONE, 2], []
-            r = execute(cur, op, a, xs, vm)
+            r = execute(cur, op, a, xs, vm, idxrep=1 if rnd.random() < 0.2 else 0)
             r["tid"] = t
             out.append(r)
             if op != "copy":
@@ -272,7 +307,7 @@ def run(rep, tier, seed):
                           heap="4g" if tier == "quick" else "12g")
         rep.add_tlc("TraitListMC", res)
         trace = os.path.join(work, "trace.ndjson")
-        tot = cases.run_dump_cases(dump + ".dump", case_fn, out_ndjson=trace)
+        tot = cases.run_dump_cases(dump + ".dump", case_fn, out_ndjson=trace, reps=2)
         os.unlink(dump + ".dump")
         if tot["ncases"] == 0:
             raise MachineryError("no cases in dump")
@@ -294,7 +329,8 @@ def run(rep, tier, seed):
         rep.sample(hl[len(hl) // 2])
         n = tot["nlines"] + len(hl)
         judge.judge(rep, "Trace_TraitList", "Trace_TraitList", "Trace_TraitList.cfg", trace, n,
-                    sig_of=lambda rec, cl: "C05:judge:%s:%s" % (rec["op"], "+".join(cl)),
+                    sig_of=lambda rec, cl: "C05:judge:%s%s:%s" % (rec["op"], ":index-object" if rec.get("idxrep") else "",
+                                                                   "+".join(cl)),
                     heap="8g" if tier == "quick" else "24g")
         rep.rule = ("cases = every (initial list, validator, operation, arguments) state enumerated by TLC from "
                     "TraitListMC (%s), each executed on a real TraitList and on a builtin list, plus %d seeded "
@@ -315,6 +351,6 @@ def replay(rep, path):
     obj = json.load(open(path))
     c = obj.get("case") or {}
     rec = c.get("record", c)
-    r = execute(rec["pre"], rec["op"], rec["a"], rec["xs"], rec["vm"])
+    r = execute(rec["pre"], rec["op"], rec["a"], rec["xs"], rec["vm"], rec.get("idxrep", 0))
     print("recorded:", rec)
     print("now     :", r)
